@@ -115,7 +115,9 @@ def judge(case, out):
         return None if (kind == "val" and num == exp) else "wrong: expected val %d" % exp
     if op == "join":
         return want_bytes(join_spec(ca, content(b)), "ok")
-    if op == "join_fmt":
+    if op in ("join_fmt", "join_fmts"):
+        # join_fmts: b is the RENDERED payload of a shaped fmt::Arguments (K.operands) — the definition is over bytes,
+        # the same for a literal format string and for run-time arguments
         if 0 in b:
             return None  # NUL inside a formatted payload: outside the definition's domain
         return want_bytes(join_spec(ca, b), "ok")
@@ -293,6 +295,21 @@ def gen_placed(ctx):
     return cases
 
 
+def gen_fmt_shapes(ctx):
+    """the SHAPE of the `fmt::Arguments` handed to path_join_fmt as an explored dimension: every literal of K.FMT_LITS
+    (compiled into the harness: empty, relative, absolute, trailing / double separators, embedded and trailing NUL,
+    escaped braces, 255 and 300 bytes) in every shape (K.FMT_FORMS: literal only — the one with `as_str() == Some` —,
+    literal + one argument as prefix / suffix / both sides, argument only, two arguments) crossed with the dynamic
+    bases: empty, root, trailing and double separators, NAME_MAX / PATH_MAX sized, paths around one long component"""
+    quick = ctx.tier == "quick"
+    r = ctx.rng
+    bases = K.FMT_BASES + r.shuffle(K.long_component_paths(r))[:4 if quick else 40]
+    cases = []
+    for b in bases:
+        cases += K.fmt_shape_lines(r, "join_fmts", b + b"\0", 10 if quick else None)
+    return cases
+
+
 def run(ctx):
     ctx.rule = ("cases = all pairs of strings of length <= 3 (thorough 4) over {a,b,/,.} through find/find_buf/ends_with/match_up_to/"
                 "match_up_to_str/path_join/path_join_fmt, all strings of length <= 5 (8) through parent_path/path_file_name, pairs over "
@@ -304,6 +321,12 @@ def run(ctx):
                 "misses, absent needles) through find/find_buf, a suffix mismatch at every position through ends_with, the first "
                 "difference at every position through match_up_to/_str; paths around one component of 1..4097 bytes (NAME_MAX/PATH_MAX "
                 "boundaries) behind 9 prefixes through parent/file_name/join/join_fmt; "
+                "FMT-SHAPES stream (`join_fmts <base> <lit> <form> <x> <y>`): path_join_fmt handed every SHAPE of fmt::Arguments — each of 22 "
+                "format strings that are LITERALS compiled into the harness (empty, a, /a, a/, /, //x, a/b, ., ./b, there, /there, //, /a/, "
+                "embedded / trailing / lone NUL, escaped braces, 255 and 300 bytes) as literal only (Arguments::as_str() = Some), literal "
+                "before / behind / on both sides of one `{}` argument, the argument alone, literal between / before / behind two arguments "
+                "(arguments: empty, leading / trailing / double separators, > NAME_MAX) — crossed with 16 dynamic bases (empty, /, trailing "
+                "and double separators, 255 / 300 / 4098 bytes) + paths around one long component, a quarter of the lines placed; "
                 "distinct_nontrivial = distinct (operation, outcome kind, operand lengths capped at 3 or flagged >= 255, operand ends in NUL, placed) classes")
     ctx.assumptions += [
         "Model/UnixStr.lean describes rusl/src/string/unix_str.rs (checked by this run's correspondence, debug and release builds)",
@@ -311,6 +334,11 @@ def run(ctx):
         "find/find_buf search the raw bytes (terminator included); for NUL-free needles that equals searching the content (proved: find_eq_naive, find_buf_content)",
         "parent_path splits at the last separator, so the parent of a path with a trailing slash is the path without it (the doc comment's /home/gramar/code/ example, which is never executed, says otherwise)",
         "a formatted payload containing NUL is outside path_join_fmt's definition",
+        "the model has no notion of the SHAPE of a fmt::Arguments (literal format string vs. run-time arguments; Arguments::as_str() Some/None): "
+        "pathJoinFmtArgs/fromFormatArgs are the model of the call on the rendered bytes (theorems path_join_fmt_args_eq_spec, "
+        "path_join_fmt_shape_independent).  That the REAL code is shape-independent is OBSERVED by the fmt-shapes stream over the literal "
+        "table compiled into the harness (harness/c10/src/fmt_shapes.rs; fmt_table_observation checks the table equals the check's and that "
+        "the literal-only lines really have as_str() = Some), not proved: a fast path keyed on a literal outside the table is not reached",
         "the model has no addresses: independence of the results from operand start alignment / surrounding bytes / sub-slicing is OBSERVED "
         "by the placed stream (both operands at independently chosen alignments mod 16, 4 surrounding fills), not proved; placed operands "
         "are followed by up to 15 readable bytes (the unplaced streams keep the exact PROT_NONE placement)",
@@ -319,9 +347,11 @@ def run(ctx):
     cases = gen_cases(ctx)
     K.run_streams(ctx, "search-path", cases, judge, sig_of)
     K.run_streams(ctx, "search-path-placed", gen_placed(ctx), judge, sig_of)
+    K.run_streams(ctx, "fmt-shapes", gen_fmt_shapes(ctx), judge, sig_of)
     exe = K.build(ctx, False)
     if exe is None:
         return
+    K.fmt_table_observation(ctx, exe)
     C.correspond(ctx, "malformed", K.malformed_cases(), [exe], [C.driver_path("drv_c10")],
                  lambda c, o: None if o == "bad-op" else "malformed line not rejected with bad-op", lambda c, o, w: {"op": "malformed", "kind": "accepted"})
     if not ok and not ctx.violations:
